@@ -560,6 +560,11 @@ def _enum_basic():
     yield {"sub": "conversation", "accounts": 3, "registered": [True, True, True], "groups": [[0, 1, 2], [0, 1, 2]],
            "ops": [["send", 0, 1, "video", o], ["send", 1, 0, "audio", o], ["send", 0, 1, "document", o], ["send", 1, 0, "sticker", o],
                    ["send", 2, "g0", "video", o], ["send", 2, "g0", "audio", o], ["send", 1, "g1", "document", o], ["send", 0, "g1", "sticker", o]]}
+    # the server delivers a later group message (bare sender-key ciphertext) twice to a member
+    for kind in ("text", "location"):
+        yield {"sub": "conversation", "accounts": 3, "registered": [True, True, True], "groups": [[0, 1, 2], [0, 1, 2]],
+               "ops": [["send", 0, "g0", "text", o], ["settle"], ["send", 0, "g0", kind, o], ["advance"], ["dup", 0], ["settle"],
+                       ["send", 1, "g0", kind, o], ["settle"], ["send", 1, "g0", "text", o], ["advance"], ["dup", 1], ["settle"]]}
     # one member's receipt reaches the sender before another member's retry request (its copy was corrupted)
     for kind in ("text", "image"):
         yield {"sub": "conversation", "accounts": 3, "registered": [True, True, True], "groups": [[0, 1, 2], [0, 1, 2]],
